@@ -305,39 +305,69 @@ impl<'a> PlanBuilder<'a> {
         op_node: &'a OperatorNode,
         active_set: &mut FxHashSet<NodeId>,
     ) -> Result<(), RunError> {
-        active_set.insert(op_node_id);
+        /// An operator that is being visited, its dependencies and the
+        /// position of the next dependency to look at.
+        struct Frame<'a> {
+            op_id: NodeId,
+            op_node: &'a OperatorNode,
+            deps: SmallVec<[NodeId; 4]>,
+            next_dep: usize,
+        }
 
-        for input in self.graph.operator_dependencies(op_node) {
+        let graph = self.graph;
+        let new_frame = |op_id: NodeId, op_node: &'a OperatorNode| Frame {
+            op_id,
+            op_node,
+            deps: graph.operator_dependencies(op_node).collect(),
+            next_dep: 0,
+        };
+
+        // The traversal uses an explicit stack rather than recursion, so that
+        // graphs with very long chains of operators cannot overflow the call
+        // stack. The innermost operator is last.
+        active_set.insert(op_node_id);
+        let mut stack = vec![new_frame(op_node_id, op_node)];
+
+        while let Some(frame) = stack.last_mut() {
+            let Some(&input) = frame.deps.get(frame.next_dep) else {
+                // All dependencies have been visited. Add the operator to the
+                // plan and return to the operator that depends on it.
+                for output_id in frame.op_node.output_ids().iter().filter_map(|node| *node) {
+                    self.resolved_values.insert(output_id);
+                }
+                self.plan.push((frame.op_id, frame.op_node));
+                active_set.remove(&frame.op_id);
+                stack.pop();
+                continue;
+            };
+            frame.next_dep += 1;
+
             if self.resolved_values.contains(input) {
                 continue;
             }
-            if let Some((input_op_id, input_op_node)) = self.graph.get_source_node(input) {
+            let op_id = frame.op_id;
+            if let Some((input_op_id, input_op_node)) = graph.get_source_node(input) {
                 if active_set.contains(&input_op_id) {
                     let msg = format!(
                         "Encountered cycle visiting dependency \"{}\" of operator \"{}\"",
-                        self.graph.node_name(input),
-                        self.graph.node_name(op_node_id)
+                        graph.node_name(input),
+                        graph.node_name(op_id)
                     );
                     return Err(RunErrorImpl::PlanningError(msg).into());
                 }
-                self.visit(input_op_id, input_op_node, active_set)?;
+                active_set.insert(input_op_id);
+                stack.push(new_frame(input_op_id, input_op_node));
             } else if self.options.allow_missing_inputs {
                 continue;
             } else {
                 let msg = format!(
                     "Missing input \"{}\" for op \"{}\"",
-                    self.graph.node_name(input),
-                    self.graph.node_name(op_node_id)
+                    graph.node_name(input),
+                    graph.node_name(op_id)
                 );
                 return Err(RunErrorImpl::PlanningError(msg).into());
             }
         }
-        for output_id in op_node.output_ids().iter().filter_map(|node| *node) {
-            self.resolved_values.insert(output_id);
-        }
-        self.plan.push((op_node_id, op_node));
-
-        active_set.remove(&op_node_id);
 
         Ok(())
     }
